@@ -30,10 +30,12 @@ const (
 	// knownFailedRecv: coins.ExecLocal adds a *failed* (ExecPack) transfer's amount to the receiver's AddrReciver
 	// total, the inherited DriverBase.ExecDelLocal skips non-ExecOk receipts, so the amount is never subtracted.
 	knownFailedRecv = "C14-failed-transfer-receiver-not-undone"
-	// knownMvccSameHash: for a block that changes no state (StateHash == parent's), AddMVCC overwrites the
-	// state-hash -> version entry of the parent version and DelMVCC deletes it, so the parent's version can no longer be
-	// looked up (GetVersion / GetMaxVersion fail; a second DelMVCC for the parent fails too).
-	knownMvccSameHash = "C14-mvcc-unchanged-state-hash-version-lost"
+	// knownMvccSameHash: the MVCC index keeps ONE state-hash -> version entry per hash. For a block whose state hash
+	// equals that of an earlier version (a block that changes no state: same hash as its parent; or a block that brings
+	// the state back, e.g. deposit 1 then withdraw 1) AddMVCC overwrites the earlier version's entry and DelMVCC deletes
+	// it, so the earlier version can no longer be looked up (GetVersion, and GetMaxVersion when it was the parent, fail;
+	// a later DelMVCC of that earlier version fails too).
+	knownMvccSameHash = "C14-mvcc-recurring-state-hash-version-lost"
 )
 
 // tolerance says which listed known findings are tolerated by exact signature (strict = zero value).
@@ -112,9 +114,9 @@ func unexplained(diffs []string, before, after snapshot, failed map[string]int64
 	return
 }
 
-// unexplainedMvcc removes the keys matching knownMvccSameHash's signature: for a block whose state hash equals its
-// parent's, exactly the lookups that go through that hash's version entry — GetVersion(hash) and GetMaxVersion — succeeded
-// before and report ErrNotFound after.
+// unexplainedMvcc removes the keys matching knownMvccSameHash's signature: for a block whose state hash equals that of
+// an earlier version, exactly the lookups that go through that hash's version entry — GetVersion(hash) and
+// GetMaxVersion — succeeded before and report ErrNotFound after.
 func unexplainedMvcc(diffs []string, before, after snapshot, stateHash []byte) (rest []string, hit bool) {
 	lost := "err:" + types.ErrNotFound.Error()
 	for _, k := range diffs {
@@ -136,9 +138,10 @@ func recvKey(addr string) string { return "LODB-coins-Addr:" + string(address.Fo
 
 type blockFacts struct {
 	repeat, self, failed, group, groupFailed, noStateChange bool
+	stateRecurs                                             bool // the block's state hash is the state hash of an earlier version
 }
 
-func factsOf(d *types.BlockDetail, parentState []byte) blockFacts {
+func factsOf(d *types.BlockDetail, parentState []byte, earlier map[string]bool) blockFacts {
 	var f blockFacts
 	seen := map[string]int{}
 	for i, tx := range d.Block.Txs {
@@ -168,6 +171,7 @@ func factsOf(d *types.BlockDetail, parentState []byte) blockFacts {
 		}
 	}
 	f.noStateChange = string(d.Block.StateHash) == string(parentState)
+	f.stateRecurs = earlier[string(d.Block.StateHash)]
 	return f
 }
 
@@ -198,6 +202,7 @@ func runCase(c chainCase, tol tolerance) (fail string, nonTrivial bool) {
 		u.addBlock(n.cfg, g)
 	}
 	var chain []connected
+	earlier := map[string]bool{string(n.tip().StateHash): true} // state hashes of the versions on the chain
 	for name, on := range map[string]bool{"variant:free": c.Cfg.Free, "variant:paid": !c.Cfg.Free, "variant:leveldb": c.Cfg.LevelDB,
 		"variant:memdb": !c.Cfg.LevelDB, "variant:quickIndex": c.Cfg.Quick} {
 		if on {
@@ -212,9 +217,10 @@ func runCase(c chainCase, tol tolerance) (fail string, nonTrivial bool) {
 			continue
 		}
 		lib.ClassN("tx:dropped_before_fee", countTxs(specs)-len(detail.Block.Txs))
-		f := factsOf(detail, parent.StateHash)
+		f := factsOf(detail, parent.StateHash, earlier)
+		earlier[string(detail.Block.StateHash)] = true
 		for name, on := range map[string]bool{"block:repeated_address": f.repeat, "block:self_transfer": f.self, "block:failed_tx": f.failed,
-			"block:group": f.group, "block:failed_group": f.groupFailed, "block:no_state_change": f.noStateChange, "block:nontrivial": f.nonTrivial()} {
+			"block:group": f.group, "block:failed_group": f.groupFailed, "block:no_state_change": f.noStateChange, "block:state_hash_recurs": f.stateRecurs, "block:nontrivial": f.nonTrivial()} {
 			if on {
 				lib.Class(name)
 			}
@@ -265,7 +271,7 @@ func runCase(c chainCase, tol tolerance) (fail string, nonTrivial bool) {
 					}
 				}
 			}
-			if tol.mvccSameHash && f.noStateChange {
+			if tol.mvccSameHash && f.stateRecurs {
 				var hit bool
 				if rest, hit = unexplainedMvcc(rest, before, after, detail.Block.StateHash); hit {
 					lib.ExcludedKnown(knownMvccSameHash)
@@ -307,12 +313,12 @@ func runCase(c chainCase, tol tolerance) (fail string, nonTrivial bool) {
 	k := c.RollbackTo % len(chain)
 	lib.ClassN("rollback:blocks_removed", len(chain)-k)
 	target := chain[k]
-	// knownMvccSameHash also breaks the removal of the *parent* of a no-state-change block (its version entry is gone
-	// once the child was removed): when that finding is listed and such a block is among the removed ones, the mvcc part
-	// of this path is left out.
+	// knownMvccSameHash also breaks the removal of the earlier version that shares the hash (its version entry is gone
+	// once the later block was removed): when that finding is listed and such a block is among the removed ones, the mvcc
+	// part of this path is left out.
 	skipMvcc := false
 	for _, cb := range chain[k:] {
-		skipMvcc = skipMvcc || (tol.mvccSameHash && cb.facts.noStateChange)
+		skipMvcc = skipMvcc || (tol.mvccSameHash && cb.facts.stateRecurs)
 	}
 	if msg := n.rollbackTo(target.detail.Block.Height - 1); msg != "" {
 		if skipMvcc && n.mvccInNode {
@@ -557,7 +563,7 @@ func TestKnown_MvccUnchangedStateHash(t *testing.T) {
 		chainCase{Cfg: variant{Free: true, Quick: true}, Blocks: [][]txSpec{
 			{{Kind: "none", From: 0, To: 0, Fee: 0}},
 		}, RollbackTo: 0},
-		"removing a block that changed no state deletes the MVCC version entry of the parent state (shared state hash)")
+		"removing a block whose state hash equals an earlier version's (here: a block that changed no state) deletes that version's MVCC hash->version entry")
 }
 
 func firstLine(s string) string {
